@@ -358,6 +358,9 @@ func countC09(c *vlib.Ctx, out *caseOutcome) {
 	}
 	var order []string
 	for _, r := range out.Records {
+		if r.LateStamp {
+			c.Count("late_start_stamps", 1)
+		}
 		if r.Kind == envlab.KHookStart || r.Kind == envlab.KHookEnd {
 			order = append(order, fmt.Sprintf("%s%d%s", r.Hook, r.Inv, r.Kind[5:]))
 		}
